@@ -195,6 +195,24 @@ def gen(chk, tier):
             # the same relation with e not reduced (e + n still fits when e is small)
             if e_ + N < T256:
                 verify(cls + "_e_unreduced", b32(Ppt[0]), b32(Ppt[1]), b32(e_ + N), b32(r_), b32(s_))
+    # e chosen FIRST as well: digests in [n, 2^256) are legal inputs, so e + x_R ranges up to about 2^257 > 3n/... - one
+    # conditional subtraction does not reduce it.  r = (e + x_R) mod n, s random, P = t^-1 (R - [s]G).
+    for R in targets:
+        xr = R[0]
+        es = [T256 - 1, T256 - 2, N, N + 1, N + rng.randrange(2, T256 - N), (2 * N - xr) % T256, (2 * N - xr + 1) % T256,
+              (2 * N - xr - 1) % T256, (3 * N - xr) % T256 if 3 * N - xr < T256 else N - 1]
+        for e_ in (es if not q else es[:2] + es[5:7]):
+            r_ = (e_ + xr) % N
+            s_ = rscalar(rng)
+            t_ = (r_ + s_) % N
+            if r_ == 0 or t_ == 0:
+                continue
+            Ppt = ec.mul(ec.inv_n(t_), ec.add(R, ec.neg(ec.mul(s_))))
+            if Ppt is None:
+                continue
+            cls = "e_first_sum_ge_2n" if e_ + xr >= 2 * N else "e_first"
+            verify(cls + "_valid", b32(Ppt[0]), b32(Ppt[1]), b32(e_), b32(r_), b32(s_))
+            verify(cls + "_r_plus_1", b32(Ppt[0]), b32(Ppt[1]), b32(e_), b32((r_ + 1) % N), b32(s_))
     # public key classes: non-canonical coordinate (x + p), off curve, zero point, (0, sqrt b)
     x = 0
     found = []
